@@ -336,6 +336,43 @@ func straightFacts(f *ast.File, fname, defname string, consts map[string]string,
 	fmt.Fprintf(out, "Definition %s : list stmtfact := [\n%s\n].\n\n", defname, strings.Join(facts, ";\n"))
 }
 
+var keysJSON map[string][]string
+
+// formKeys: string literals used as request-parameter names inside a function
+func formKeys(f *ast.File, fname string) []string {
+	fn := funcDecl(f, fname)
+	set := map[string]bool{}
+	if fn == nil {
+		return nil
+	}
+	ast.Inspect(fn.Body, func(n ast.Node) bool {
+		switch x := n.(type) {
+		case *ast.CallExpr:
+			name := exprStr(x.Fun)
+			if strings.HasSuffix(name, ".FormValue") || strings.HasSuffix(name, ".Form.Get") || strings.HasSuffix(name, ".PostFormValue") || strings.HasSuffix(name, ".Query().Get") || strings.HasSuffix(name, ".PostForm.Get") || strings.HasSuffix(name, ".Header.Get") {
+				for _, a := range x.Args {
+					if bl, ok := a.(*ast.BasicLit); ok && bl.Kind == token.STRING {
+						v, _ := strconv.Unquote(bl.Value)
+						set[name[strings.Index(name, ".")+1:]+":"+v] = true
+					}
+				}
+			}
+		case *ast.IndexExpr:
+			if bl, ok := x.Index.(*ast.BasicLit); ok && bl.Kind == token.STRING {
+				v, _ := strconv.Unquote(bl.Value)
+				set["index:"+v] = true
+			}
+		}
+		return true
+	})
+	var out []string
+	for k := range set {
+		out = append(out, k)
+	}
+	sort.Strings(out)
+	return out
+}
+
 func genFacts(repo string) string {
 	fset := token.NewFileSet()
 	var out strings.Builder
@@ -364,6 +401,15 @@ func genFacts(repo string) string {
 	chainFacts(files["sso.go"], "ssoHandleFunc", "sso", consts, &out)
 	chainFacts(files["logout.go"], "logoutHandleFunc", "logout", consts, &out)
 	chainFacts(files["attribute_query.go"], "attributeQueryHandleFunc", "attrquery", consts, &out)
+	keysJSON = map[string][]string{}
+	for _, fk := range [][3]string{{"sso.go", "getAuthRequestFromRequest", "sso_form_keys"}, {"logout.go", "getLogoutRequestFromRequest", "logout_form_keys"},
+		{"login.go", "callbackHandleFunc", "callback_form_keys"}, {"logout.go", "logoutHandleFunc", "logout_handler_keys"}, {"sso.go", "ssoHandleFunc", "sso_handler_keys"},
+		{"attribute_query.go", "attributeQueryHandleFunc", "attrquery_handler_keys"}} {
+		ks := formKeys(files[fk[0]], fk[1])
+		keysJSON[fk[2]] = ks
+		fmt.Fprintf(&out, "Definition %s : list string := %s.\n", fk[2], coqStrList(ks))
+	}
+	out.WriteString("\n")
 	straightFacts(files["login.go"], "callbackHandleFunc", "callback_seq", consts, &out)
 	straightFacts(files["login.go"], "loginResponse", "loginResponse_seq", consts, &out)
 	straightFacts(files["response.go"], "sendBackResponse", "sendBackResponse_seq", consts, &out)
